@@ -401,6 +401,8 @@ func errKind(msg string) string {
 	case strings.Contains(msg, "Malformed state token"), strings.Contains(msg, "signature verification failed"),
 		strings.Contains(msg, "Unsupported state token version"):
 		return "badToken"
+	case strings.Contains(msg, "not issued by this method"):
+		return "wrongMethod"
 	case strings.Contains(msg, "Input schema mismatch"):
 		return "cast"
 	}
